@@ -662,14 +662,16 @@ LeaseWithinGrantStep == \A e \in Zones : (deleg'[e] # deleg[e] /\ deleg'[e].ver 
 LeaseWithinGrant == [][LeaseWithinGrantStep]_vars
 
 (* a lease for an unchanged observation never grows (the provisional entry   *)
-(* is the same observation capped lower; completing it is not an extension   *)
-(* beyond the grant); a non-progressing referral never inserts               *)
+(* of lookupV4Nss is the same observation capped at one minute from each NS  *)
+(* lookup, always inside the grant: replacing or completing it is not an     *)
+(* extension); a non-progressing referral never inserts                      *)
 NoSelfExtensionStep ==
   /\ \A e \in Zones :
        (deleg[e].ver # 0 /\ deleg'[e].ver = deleg[e].ver
-        /\ deleg'[e].observedAt = deleg[e].observedAt /\ deleg[e].prov = deleg'[e].prov
+        /\ deleg'[e].observedAt = deleg[e].observedAt /\ ~deleg[e].prov /\ ~deleg'[e].prov
         /\ deleg'[e].anc = deleg[e].anc)
-         => (deleg'[e].expires <= deleg[e].expires \/ deleg'[e].expires = deleg'[e].ins + Ceil)
+         => (deleg'[e].expires <= deleg[e].expires \/ deleg'[e].expires = deleg'[e].ins + Ceil
+             \/ deleg[e].expires = deleg[e].ins + Ceil)   \* the 12 h clamp is anchored at insertion (DESIGN 9)
   /\ dreply'.kind = "selfref" => deleg' = deleg
 NoSelfExtension == [][NoSelfExtensionStep]_vars
 
@@ -685,8 +687,8 @@ FollowsParent ==
 RelD(d) == IF d.ver = 0 \/ d.expires <= now THEN [rem |-> 0, ver |-> 0, prov |-> FALSE]
            ELSE [rem |-> d.expires - now, ver |-> d.ver, prov |-> d.prov]
 RelRes(x) == [st |-> x.st, z |-> x.z, at |-> x.at, cut |-> Rel(x.cut), ins |-> x.ins, np |-> x.np,
-              obs |-> [e |-> x.obs.e, age |-> IF x.obs.e = "-" THEN 0 ELSE now - x.obs.t,
-                       ns |-> x.obs.ns, ds |-> x.obs.ds, ver |-> x.obs.ver]]
+              obs |-> [e |-> x.obs.e, ver |-> x.obs.ver,
+                       lease |-> IF x.obs.e = "-" THEN 0 ELSE Rel(LeaseOf(x.obs.t, x.obs.ns, x.obs.ds))]]
 RelA(a) == IF LiveA(a) THEN [rem |-> Min2(a.stored + a.ttl, a.cutUntil) - now, cut |-> Rel(a.cutUntil), via |-> a.via]
            ELSE [rem |-> 0, cut |-> 0, via |-> "-"]
 ViewD == <<pub, [z \in Zones |-> RelD(deleg[z])], [z \in Zones |-> Rel(granted[z])],
